@@ -864,7 +864,7 @@ func (d *jsonDecDriver[T]) DecodeRawExt(re *RawExt) {
 func (d *jsonDecDriver[T]) decBytesFromArray(bs []byte) []byte {
 	d.advance()
 	if d.tok != ']' {
-		bs = append(bs, uint8(d.DecodeUint64()))
+		bs = append(bs, uint8(chkOvf.UintV(d.DecodeUint64(), 8)))
 		d.advance()
 	}
 	for d.tok != ']' {
